@@ -7,14 +7,17 @@
 (*                                         element ids; probe = TRUE for the final quiescent  *)
 (*                                         read issued by the driver                          *)
 (*   Tier  [cat, op, stores]               tier classes touched by one facade call (clause 3) *)
+(*   Vis   [cat, op, st, rd, ps, flags, vis]  deployment level: node B sees what node A wrote  *)
 (* The order of lines is the real-time order observed by the (sequential) driver, so          *)
 (* "w returned before r was called" in the file implies the same in reality.                  *)
-EXTENDS VLib
+EXTENDS VLib, FiniteSets
 
 VARIABLES writes,   \* id -> [op, call, ret]   (ret = 0 while the call has not returned)
           rcall,    \* p -> line at which p's current read was called
           cat, mode   \* cat carries the scope suffix of the scenario (":xnode", ":fault=...") so that details name it
 vars == <<l, viol, writes, rcall, cat, mode>>
+
+D == INSTANCE HybridDeploy WITH cfg <- [st |-> FALSE, rd |-> FALSE, ps |-> FALSE]
 
 W0 == (0 :> [op |-> "init", call |-> 0, ret |-> 1])   \* the pre-existing value / list element 0
 Init == l = 1 /\ viol = {} /\ writes = W0 /\ rcall = <<>> /\ cat = "?" /\ mode = "?"
@@ -51,6 +54,9 @@ ReadViol(e) ==
   ELSE {}
 
 Elems(s) == {s[i] : i \in 1..Len(s)}
+\* every member is appended exactly once (distinct ids): a list answer that holds a member twice was never a
+\* state of the list (e.g. a filter that rewrote the cached slice in place and then failed to store it)
+DupViol(e) == IF e.t = "list" /\ Cardinality(Elems(e.v)) # Len(e.v) THEN {V("DupMember", cat)} ELSE {}
 ListViol(e) ==
   IF ~(e.probe /\ e.t = "list") THEN {}
   ELSE LET have == Elems(e.v)
@@ -68,7 +74,7 @@ TrRet == /\ Is("Ret")
                                             \* candidate explanation for later reads (ret = 0) but obliges nothing
                  /\ viol' = viol
             ELSE /\ writes' = writes
-                 /\ viol' = viol \cup (IF mode = "kv" THEN ReadViol(Ev) ELSE ListViol(Ev))
+                 /\ viol' = viol \cup (IF mode = "kv" THEN ReadViol(Ev) ELSE ListViol(Ev) \cup DupViol(Ev))
          /\ l' = l + 1 /\ UNCHANGED <<rcall, cat, mode>>
 
 \* clause 3: a key is read and written in the tier class of its category
@@ -83,9 +89,16 @@ TrTier == /\ Is("Tier")
              viol' = viol \cup (IF bad = {} THEN {} ELSE {V("WrongTier", Ev.cat \o ":" \o Ev.op \o ":" \o (CHOOSE b \in bad : TRUE))})
           /\ l' = l + 1 /\ UNCHANGED <<writes, rcall, cat, mode>>
 
+\* clause 3 at deployment level: two nodes built by the real createStorage from the same flags; what node A wrote
+\* to a key of a shared category must be visible at node B in every multi-node deployment (HybridDeploy.tla)
+TrVis == /\ Is("Vis")
+         /\ viol' = viol \cup (IF D!MultiNode(Ev.st, Ev.rd, Ev.ps) /\ Ev.cat \in D!SharedCats /\ ~Ev.vis
+                                THEN {V("NotShared", Ev.cat \o ":deploy=" \o Ev.flags \o ":" \o Ev.op)} ELSE {})
+         /\ l' = l + 1 /\ UNCHANGED <<writes, rcall, cat, mode>>
+
 TrEnd == /\ Is("End") /\ EmitVerdict
          /\ l' = l + 1 /\ viol' = {} /\ writes' = W0 /\ rcall' = <<>> /\ cat' = "?" /\ mode' = "?"
 
-Next == TrCfg \/ TrCall \/ TrRet \/ TrTier \/ TrEnd
+Next == TrCfg \/ TrCall \/ TrRet \/ TrTier \/ TrVis \/ TrEnd
 Spec == Init /\ [][Next]_vars
 =============================================================================
